@@ -41,6 +41,8 @@ def run(ck):
     ck.rule("C06.R9", "enter / exit / current_span / new_span reach the registry through Dispatch unchanged (as C09.R4)", floor=4)
     ck.rule("C06.R10", "root / contextual / explicit parent is encoded and decoded consistently: Attributes and Event constructors store the Parent variant their name says, and is_root / is_contextual / parent read back exactly that variant", floor=10)
     ck.rule("C06.R11", "ancestors stay readable while anything refers to them: the registry's reference count moves by atomic read-modify-write only, with the release/acquire pairing of the last decrement (as C05.R2)", floor=3)
+    ck.rule("C06.R17", "a span is looked up in the registry that holds it whatever wraps that registry: Box, Arc, Layered and fmt::Collector forward span_data and "
+            "register_filter unchanged; Scope::from_root is the same chain reversed", floor=8)
     ck.rule("C06.R16", "a captured SpanTrace walks exactly the chain of ancestors: ErrorSubscriber::get_context hands every span of the scope to the visitor -- a span "
             "without stored fields is reported with empty fields, not skipped -- and stops only when the visitor says so", floor=1)
     ck.rule("C06.R15", "a thread starts with an empty span stack: the storage of the per-thread stack does not outlive its thread (or is emptied when the thread ends)", floor=1)
@@ -68,6 +70,7 @@ def run(ck):
     event_context_siblings(ck, F)
     stack_storage(ck, F)
     span_trace_walk(ck, F)
+    lookup_wrappers(ck, F)
     from rules import C05 as _C05
     _C05.r2(ck, F, rid="C06.R11")
     from rules import C09 as _C09
@@ -353,6 +356,23 @@ def r5(ck, F):
         else:
             ck.bad("C06.R5", key, where(ws.raw["sp"]), "the captured id is resolved through %s: read on another thread, after the scope ended or under another collector "
                    "the trace is empty or shows an unrelated span's ancestors" % (sorted(set(ambient)) or "something other than Span::with_collector"), fn=ws.path)
+
+
+def lookup_wrappers(ck, F, rid="C06.R17"):
+    from rules import C09 as _C09
+    _C09.wrapper_rules(ck, F, rids={"R0": rid, "R1": rid, "R2": rid, "R3": rid}, traits=["tracing_subscriber::registry::LookupSpan"],
+                       only={"span_data", "register_filter"})
+    b = F.body("tracing_subscriber::registry::Scope::<'a, R>::from_root")
+    if ck.anchor(rid, "Scope::from_root", b):
+        r = [show(p.ret) for p in PathEval(b).run() if p.end == "return"]
+        key = "Scope::from_root yields the spans of the scope, each once, in reverse order"
+        ok = len(r) == 1 and "rev(" in r[0] and "arg1" in r[0] and not any(x in r[0] for x in ("skip(", "take(", "filter(", "step_by(", "skip_while("))
+        (ck.ok(rid, key, fn=b.path) if ok else ck.bad(rid, key, where(b.raw["sp"]), "builds %s" % r, fn=b.path))
+    nx = F.body("<tracing_subscriber::registry::ScopeFromRoot<'a, R> as core::iter::traits::iterator::Iterator>::next")
+    if ck.anchor(rid, "ScopeFromRoot::next", nx):
+        r = [show(p.ret) for p in PathEval(nx).run() if p.end == "return"]
+        key = "ScopeFromRoot::next hands out the next collected span unchanged"
+        (ck.ok(rid, key, fn=nx.path) if r == ["next(arg1.spans)"] else ck.bad(rid, key, where(nx.raw["sp"]), "returns %s" % r, fn=nx.path))
 
 
 def span_trace_walk(ck, F, rid="C06.R16"):
